@@ -393,6 +393,7 @@ def run_check(modname, tier, seed, procs=None):
         acc.merge(pre_acc)
     for _, a in results:
         acc.merge(a)
+    env_info = run_environments(mod, modname, tier, seed, acc)
 
     known = load_known()
     reported = []
@@ -453,6 +454,8 @@ def run_check(modname, tier, seed, procs=None):
         "harness_errors": acc.harness_errors,
         "explanation": getattr(mod, "EXPLANATION", ""),
     }
+    if env_info:
+        coverage["environments"] = env_info
     coverage.update(extra)
     evidence = {
         "property_id": pid,
@@ -492,11 +495,116 @@ def run_check(modname, tier, seed, procs=None):
     return 1 if reported else 0
 
 
+# ------------------------------------------------------------------------------------------
+# environments: the answers the interpreter gives that are not arguments of any call (DESIGN 10.24)
+
+ENVIRONMENTS = [
+    # label, extra environment variables, interpreter flags
+    ("hash seed 1", {"PYTHONHASHSEED": "1"}, []),
+    ("hash seed 2", {"PYTHONHASHSEED": "2"}, []),
+    ("hash seed 3", {"PYTHONHASHSEED": "3"}, []),
+    ("hash seed 4", {"PYTHONHASHSEED": "4"}, []),
+    ("hash seed 5", {"PYTHONHASHSEED": "5"}, []),
+    ("hash seed 6", {"PYTHONHASHSEED": "6"}, []),
+    ("hash seed 7", {"PYTHONHASHSEED": "7"}, []),
+    ("hash seed 8", {"PYTHONHASHSEED": "8"}, []),
+    ("hash seed 9, C locale without UTF-8 mode", {"PYTHONHASHSEED": "9", "LC_ALL": "C", "LANG": "C", "PYTHONUTF8": "0", "PYTHONCOERCECLOCALE": "0"}, []),
+    ("hash seed 10, submodules imported in reverse order, collector off", {"PYTHONHASHSEED": "10", "VERIF_ENV_PREPARE": "imports-reversed gc-off"}, []),
+    ("hash seed 11, collector eager, python -O", {"PYTHONHASHSEED": "11", "VERIF_ENV_PREPARE": "gc-eager"}, ["-O"]),
+]
+
+
+def _run_one_environment(args):
+    import pickle
+    import subprocess
+    import tempfile
+
+    modname, tier, seed, shards, (label, extra, flags) = args
+    fd, out = tempfile.mkstemp(prefix="verif-env-", suffix=".pkl", dir=os.environ.get("VERIF_TMP", "/var/tmp"))
+    os.close(fd)
+    try:
+        env = dict(os.environ)
+        env.update(extra)
+        env["VERIF_REPO"] = REPO
+        env["VERIF_ENVS"] = "0"
+        r = subprocess.run(
+            [sys.executable] + list(flags) + ["-m", "mc.envworker", modname, tier, str(seed), label, out],
+            input=json.dumps([_listify(s) for s in shards]), capture_output=True, text=True, env=env, cwd=VERIF, timeout=3600,
+        )
+        if r.returncode != 0:
+            return label, None, (r.stderr.strip().splitlines() or ["exit %d" % r.returncode])[-1][:300]
+        with open(out, "rb") as f:
+            return label, pickle.load(f), None
+    except Exception as e:
+        return label, None, repr(e)
+    finally:
+        try:
+            os.unlink(out)
+        except OSError:
+            pass
+
+
+def run_environments(mod, modname, tier, seed, acc):
+    """A check may name some of its shards ENV_SHARDS(tier) - its broad, cheap families.  Those are run again, each in a
+    fresh interpreter per environment of ENVIRONMENTS (hash seeds, a C locale without UTF-8 mode, another import order,
+    other collector settings, python -O): the same oracles judge every case there.  A violation found there carries the
+    environment in its signature and in its witness, and is replayed in that environment."""
+    fn = getattr(mod, "ENV_SHARDS", None)
+    if fn is None or os.environ.get("VERIF_ENVS", "1") == "0":
+        return None
+    shards = list(fn(tier))
+    if not shards:
+        return None
+    from concurrent.futures import ThreadPoolExecutor
+
+    jobs = [(modname, tier, seed, shards, e) for e in ENVIRONMENTS]
+    with ThreadPoolExecutor(len(jobs)) as ex:
+        results = list(ex.map(_run_one_environment, jobs))
+    info = {"shards_per_environment": len(shards), "environments": [e[0] for e in ENVIRONMENTS], "cases_per_environment": {}}
+    for (label, accs, err), envspec in zip(results, ENVIRONMENTS):
+        if accs is None:
+            acc.harness_error(f"environment {label!r}: {err}")
+            continue
+        n = 0
+        for a in accs:
+            n += a.evaluations
+            acc.counters["environment_cases"] += a.evaluations
+            acc.traces += a.traces
+            acc.raised.update(a.raised)
+            acc.caps |= a.caps
+            acc.harness_errors.extend(a.harness_errors)
+            del acc.harness_errors[5:]
+            for key, lst in a.viol.items():
+                sig = json.loads(key)
+                sig["environment"] = label
+                k2 = json.dumps(sig, sort_keys=True, default=str)
+                mine = acc.viol.setdefault(k2, [])
+                for size, blob in lst:
+                    w = json.loads(blob)
+                    w["environment"] = {"label": label, "variables": envspec[1], "flags": envspec[2]}
+                    mine.append((size, json.dumps(w, sort_keys=True, default=str)))
+                mine.sort()
+                del mine[MAX_WITNESS_PER_SIG:]
+                acc.by_sig[k2] += a.by_sig[key]
+        info["cases_per_environment"][label] = n
+    return info
+
+
 def run_replay(modname, path):
     mod = importlib.import_module(modname)
     with open(path) as f:
         body = json.load(f)
     case = body["witness"]["case"]
+    envw = body["witness"].get("environment")
+    if envw and os.environ.get("VERIF_ENVS", "1") != "0":
+        # found in a particular environment: replayed there (a fresh interpreter with its variables and flags)
+        import subprocess
+
+        env = dict(os.environ)
+        env.update(envw.get("variables", {}))
+        env["VERIF_ENVS"] = "0"
+        env["VERIF_REPO"] = REPO
+        return subprocess.run([sys.executable] + list(envw.get("flags", [])) + ["-m", "mc.run", mod.ID, "--replay", path], env=env, cwd=VERIF).returncode
     from . import set_logging
 
     # the case is replayed in both logging environments of a full run (the library's DEBUG logging on / logging
